@@ -68,6 +68,10 @@ pub struct Node {
     pub fields: Vec<FieldKind>,
     pub virtual_method: bool,
     pub dtor: bool,
+    /// bases that are instantiations of an earlier class template: `None` = `Nb<T>` (the
+    /// node's own parameter; only inside templates), `Some(a)` = `Nb<a>`
+    #[serde(default)]
+    pub tbases: Vec<(usize, Option<Arg>)>,
 }
 
 #[derive(Clone, Debug, Serialize, Deserialize, PartialEq, Eq, Hash)]
@@ -169,6 +173,18 @@ impl Graph {
         for b in &n.bases {
             v.insert(*b);
         }
+        for (b, a) in &n.tbases {
+            v.insert(*b);
+            match a {
+                Some(Arg::Node(k)) => {
+                    v.insert(*k);
+                }
+                Some(Arg::PtrNode(k)) => {
+                    p.insert(*k);
+                }
+                _ => {}
+            }
+        }
         for f in &n.fields {
             self.by_value_deps_of_field(f, &mut v, &mut p);
         }
@@ -192,6 +208,7 @@ impl Graph {
                     node.kind = NodeKind::Class;
                 }
                 node.bases.clear();
+                node.tbases.clear();
                 node.virtual_method = false;
                 node.dtor = false;
                 node.virtual_bases = false;
@@ -231,7 +248,27 @@ impl Graph {
             node.bases.retain(|b| class_before(*b));
             node.bases.sort();
             node.bases.dedup();
+            node.tbases.retain(|(b, _)| template_before(*b));
+            for (_, a) in node.tbases.iter_mut() {
+                match a {
+                    None if !is_tmpl => *a = Some(Arg::Int),
+                    Some(x) => fix_arg(x),
+                    None => {}
+                }
+            }
+            // a class cannot have the same direct base twice
+            let mut seen: Vec<(usize, Option<Arg>)> = vec![];
+            node.tbases.retain(|(b, a)| {
+                let t = (if let NodeKind::AliasTemplate(t) = &kinds[*b] { *t } else { *b }, a.clone());
+                if seen.contains(&t) {
+                    false
+                } else {
+                    seen.push(t);
+                    true
+                }
+            });
             if is_union || !cpp {
+                node.tbases.clear();
                 node.bases.clear();
                 node.virtual_method = false;
                 node.virtual_bases = false;
@@ -250,6 +287,7 @@ impl Graph {
                     }
                     node.fields.clear();
                     node.bases.clear();
+                    node.tbases.clear();
                 }
                 NodeKind::AliasTemplate(t) => {
                     if !(*t < i && matches!(kinds[*t], NodeKind::Template)) {
@@ -257,6 +295,7 @@ impl Graph {
                     } else {
                         node.fields.clear();
                         node.bases.clear();
+                        node.tbases.clear();
                     }
                 }
                 _ => {}
@@ -302,12 +341,16 @@ impl Graph {
                     s.push_str("template<class T> ");
                 }
                 s.push_str(&format!("{} {}", self.tag(i), nname(i)));
-                if !n.bases.is_empty() {
-                    let bs: Vec<String> = n
+                if !n.bases.is_empty() || !n.tbases.is_empty() {
+                    let mut bs: Vec<String> = n
                         .bases
                         .iter()
                         .map(|b| format!("{}public {}", if n.virtual_bases { "virtual " } else { "" }, nname(*b)))
                         .collect();
+                    for (b, a) in &n.tbases {
+                        let arg = a.as_ref().map(|a| self.arg_text(a)).unwrap_or_else(|| "T".into());
+                        bs.push(format!("public {}<{}>", nname(*b), arg));
+                    }
                     s.push_str(&format!(" : {}", bs.join(", ")));
                 }
                 s.push_str(" {\n");
@@ -430,7 +473,7 @@ impl Graph {
         let mut p = vec![false; n];
         for i in 0..n {
             let node = &self.nodes[i];
-            p[i] = node.virtual_method || (node.virtual_bases && !node.bases.is_empty()) || node.bases.iter().any(|b| p[*b]);
+            p[i] = node.virtual_method || (node.virtual_bases && !node.bases.is_empty()) || node.bases.iter().any(|b| p[*b]) || node.tbases.iter().any(|(b, _)| p[*b]);
         }
         p
     }
@@ -504,7 +547,37 @@ fn node_strategy(n: usize) -> impl Strategy<Value = Node> {
         proptest::bool::weighted(0.15),
         proptest::bool::weighted(0.15),
     )
-        .prop_map(|(kind, bases, virtual_bases, fields, virtual_method, dtor)| Node { kind, bases, virtual_bases, fields, virtual_method, dtor })
+        .prop_map(|(kind, bases, virtual_bases, fields, virtual_method, dtor)| Node { kind, bases, virtual_bases, fields, virtual_method, dtor, tbases: vec![] })
+}
+
+fn tbases_strategy(n: usize) -> impl Strategy<Value = Vec<(usize, Option<Arg>)>> {
+    let arg = prop_oneof![
+        4 => Just(None),
+        1 => Just(Some(Arg::Int)),
+        1 => Just(Some(Arg::Float)),
+        1 => (0..n.max(1)).prop_map(|k| Some(Arg::Node(k))),
+        1 => (0..n.max(1)).prop_map(|k| Some(Arg::PtrNode(k))),
+    ];
+    proptest::collection::vec((0..n.max(1), arg), 0..3)
+}
+
+/// As `graph_strategy`, with classes and class templates that also derive from instantiations
+/// of earlier class templates (`struct N3 : N1<int>`, `template<class T> struct N4 : N2<T>`).
+pub fn graph_strategy_tb(max_nodes: usize) -> impl Strategy<Value = Graph> {
+    (3..=max_nodes, proptest::bool::weighted(0.8))
+        .prop_flat_map(|(n, cpp)| (proptest::collection::vec((node_strategy(n), proptest::option::weighted(0.45, tbases_strategy(n))), n), Just(cpp)))
+        .prop_map(|(nodes, cpp)| {
+            let nodes = nodes
+                .into_iter()
+                .map(|(mut nd, tb)| {
+                    nd.tbases = tb.unwrap_or_default();
+                    nd
+                })
+                .collect();
+            let mut g = Graph { nodes, cpp };
+            g.normalise();
+            g
+        })
 }
 
 pub fn graph_strategy(max_nodes: usize) -> impl Strategy<Value = Graph> {
@@ -733,6 +806,12 @@ impl C07 {
         if g.nodes.iter().any(|n| matches!(n.kind, NodeKind::Template)) {
             out.class("dag:template");
         }
+        if g.nodes.iter().any(|n| !n.tbases.is_empty()) {
+            out.class("dag:base-is-instantiation");
+        }
+        if g.nodes.iter().enumerate().any(|(i, n)| n.tbases.iter().any(|(b, a)| a.is_none() && g.nodes[*b].tbases.iter().any(|(_, a2)| a2.is_none()) && i > *b)) {
+            out.class("dag:template-base-chain-2+");
+        }
         out.sample = Some(json!({"header_canonical_order": g.render(&orders[0]), "orders": orders.len(), "seeds": seeds, "flags": flags}));
     }
 }
@@ -765,6 +844,59 @@ fn first_diff(a: &BgResult, b: &BgResult) -> String {
     }
 }
 
+/// A fact that starts at the root of a chain of class templates has to travel along every edge
+/// kind: root feature x chain of 1..3 links (template base `Nk<T>`, by-value member `Nk<T>`,
+/// member array, alias template) x a concrete use at the end (member, base, typedef).
+pub fn chain_grid() -> Vec<Case> {
+    let roots: Vec<(Vec<FieldKind>, bool, bool)> = vec![
+        (vec![FieldKind::TArr(2)], false, false),
+        (vec![FieldKind::TArr(40)], false, false),
+        (vec![FieldKind::T], false, false),
+        (vec![FieldKind::PtrT, FieldKind::FloatArr(33)], false, false),
+        (vec![FieldKind::IntArr(33)], false, false),
+        (vec![FieldKind::Float], false, false),
+        (vec![FieldKind::Int], true, false),
+        (vec![FieldKind::Int], false, true),
+        (vec![FieldKind::FnPtr(13), FieldKind::Bitfield(3)], false, false),
+    ];
+    let node = |kind: NodeKind, fields: Vec<FieldKind>, tbases: Vec<(usize, Option<Arg>)>, vm: bool, dtor: bool| Node { kind, bases: vec![], virtual_bases: false, fields, virtual_method: vm, dtor, tbases };
+    let mut v = vec![];
+    for (rf, vm, dtor) in &roots {
+        for depth in 1..=3usize {
+            for link in 0..3u8 {
+                for end in 0..3u8 {
+                    let mut nodes = vec![node(NodeKind::Template, rf.clone(), vec![], *vm, *dtor)];
+                    for d in 0..depth {
+                        let prev = nodes.len() - 1;
+                        // links alternate so that mixed chains occur at depth >= 2
+                        match (link + d as u8) % 3 {
+                            0 => nodes.push(node(NodeKind::Template, vec![FieldKind::Int], vec![(prev, None)], false, false)),
+                            1 => nodes.push(node(NodeKind::Template, vec![FieldKind::Int, FieldKind::PtrInst(prev, Arg::Int)], vec![(prev, None)], false, false)),
+                            _ => {
+                                nodes.push(node(NodeKind::AliasTemplate(prev), vec![], vec![], false, false));
+                                let a = nodes.len() - 1;
+                                nodes.push(node(NodeKind::Template, vec![FieldKind::Int], vec![(a, None)], false, false));
+                            }
+                        }
+                    }
+                    let last = nodes.len() - 1;
+                    match end {
+                        0 => nodes.push(node(NodeKind::Class, vec![FieldKind::Inst(last, Arg::Int)], vec![], false, false)),
+                        1 => nodes.push(node(NodeKind::Class, vec![FieldKind::Int], vec![(last, Some(Arg::Float))], false, false)),
+                        _ => {
+                            nodes.push(node(NodeKind::Typedef(Box::new(FieldKind::Inst(last, Arg::Int))), vec![], vec![], false, false));
+                            let t = nodes.len() - 1;
+                            nodes.push(node(NodeKind::Class, vec![FieldKind::ViaTypedef(t), FieldKind::Int], vec![], false, false));
+                        }
+                    }
+                    v.push(Case::Dag { graph: Graph { nodes, cpp: true }, order_prios: vec![], seeds: vec![1], opaque: vec![], blocklist: vec![], allow_roots: vec![], derive_all: true, keep_known: false });
+                }
+            }
+        }
+    }
+    v
+}
+
 impl Property for C07 {
     type Case = Case;
     fn id(&self) -> &'static str {
@@ -782,7 +914,7 @@ impl Property for C07 {
     fn strategy(&self, tier: Tier) -> BoxedStrategy<Case> {
         let max_nodes = tier.pick(8, 9);
         (
-            graph_strategy(max_nodes),
+            prop_oneof![graph_strategy(max_nodes).boxed(), graph_strategy_tb(max_nodes).boxed()],
             proptest::collection::vec(proptest::collection::vec(0u16..8, 9), 0..4),
             proptest::collection::vec(0usize..9, 0..2),
             proptest::collection::vec(0usize..9, 0..2),
@@ -809,7 +941,9 @@ impl Property for C07 {
             Tier::Quick => vec![1, 2, 3],
             Tier::Thorough => (1..=16).collect(),
         };
-        corpus::load_all().into_iter().map(|h| Case::Repo { name: h.name, seeds: seeds.clone() }).collect()
+        let mut v: Vec<Case> = corpus::load_all().into_iter().map(|h| Case::Repo { name: h.name, seeds: seeds.clone() }).collect();
+        v.extend(chain_grid());
+        v
     }
     fn evaluate(&self, case: &Case, env: &Env) -> Outcome {
         let mut out = Outcome::new();
